@@ -155,7 +155,7 @@ def rule_source(ctx, cd):
         rxp = re.compile(rx.replace(r"\s+$", r"\s+").replace(r"\s*$", r"\s*").replace(" $", " ").rstrip("$") + r"(Pz\d+z)")
         try:
             for body in bodies:
-                for p_ in j2text.render_paths(N, body, limit=2048, macros=cd.ts.macros(t)):
+                for p_ in j2text.render_paths(N, body, limit=2048, macros=_codec.macros_visible(cd.ts, t)):
                     for m in rxp.finditer(p_.text):
                         e = p_.xs_of(m.group(1))
                         item = (e, [(c, pol) for c, pol in p_.conds], None)
@@ -233,6 +233,24 @@ def rule_source(ctx, cd):
     cnt = following_expr(t, r"_UNION_OPTION_COUNT_ $")
     ok = bool(cnt) and cnt[0][0] == "(t.fields | length)"
     ctx.ob(R, t.rel, "c: _UNION_OPTION_COUNT_ <- t.fields | length", ok, f"{[e for e, _, _ in cnt]}")
+    # C++: both union flavours export the option count as VariantType::MAX_INDEX
+    for fname in ("_fields_as_union.j2", "_fields_as_variant.j2"):
+        t = cd.ts.get("cpp", fname)
+        found = []
+        for nodes, mapping in _codec.bodies_in_caller_terms(cd.ts, t):
+            for top in nodes:
+                for o in ([top] if isinstance(top, N.Output) else []) + list(top.find_all(N.Output)):
+                    for i, e in enumerate(o.nodes):
+                        if isinstance(e, N.TemplateData) and re.search(r"\bMAX_INDEX\s*=\s*$", e.data) and i + 1 < len(o.nodes):
+                            nxt = o.nodes[i + 2].data if i + 2 < len(o.nodes) and isinstance(o.nodes[i + 2], N.TemplateData) else ""
+                            with j2front.xs_with(mapping or None):
+                                found.append((xs(o.nodes[i + 1]), nxt.lstrip()[:2], o.lineno))
+                        elif isinstance(e, N.TemplateData) and re.search(r"\bMAX_INDEX\s*=\s*[^;\s]", e.data):
+                            found.append((re.search(r"\bMAX_INDEX\s*=\s*([^;]*)", e.data).group(1), "", o.lineno))
+        ok = bool(found) and all(e in ("(composite_type.fields_except_padding | length)", "(composite_type.fields | length)") and re.match(r"U?;", tail) for e, tail, _ in found)
+        ctx.ob(R, t.rel, f"cpp: {fname}: VariantType::MAX_INDEX <- the number of options", ok,
+               f"MAX_INDEX = {[e + tail for e, tail, _ in found]}: the exported option count differs from the DSDL count (and from what C and the other flavour export)" if found else
+               "anchor: no `MAX_INDEX = ` found", found[0][2] if found else None)
     # constants
     for lang, fname in (("c", "definitions.j2"), ("cpp", "_composite_type.j2")):
         t = cd.ts.get(lang, fname)
@@ -405,6 +423,45 @@ def _is_min_term(e: str, pol: bool, val: str, ty: str) -> bool:
     return False
 
 
+def _through_helper(px, f, call, depth=2):
+    """[(call expression, guard terms)]: a call of a private module-level helper with a straight-line / if-only body is replaced by
+    what the helper returns (its locals inlined, its parameters bound to the arguments), one entry per return"""
+    import ast
+    import copy
+
+    from nvsa import pyfront, symstr
+    if not (isinstance(call, ast.Call) and isinstance(call.func, ast.Name) and depth > 0):
+        return [(call, ())]
+    callees = [g for g in px.resolve_call(f, call, by_name_fallback=False) if g.cls is None and g.outer is None and g.module is f.module]
+    if len(callees) != 1 or callees[0].node is f.node:
+        return [(call, ())]
+    g = callees[0]
+    body = symstr._simple_body(g)
+    params = [a.arg for a in g.node.args.args]
+    if body is None or g.node.args.vararg or g.node.args.kwarg or any(isinstance(a, ast.Starred) for a in call.args):
+        return [(call, ())]
+    env = {}
+    dfl = g.node.args.defaults
+    for i, dv in enumerate(dfl):
+        env[params[len(params) - len(dfl) + i]] = dv
+    for name, a in list(zip(params, call.args)) + [(k.arg, k.value) for k in call.keywords if k.arg]:
+        env[name] = a
+    if not all(p_ in env for p_ in params):
+        return [(call, ())]
+    out = []
+    for st, gd in pyfront.walk_guarded(body):
+        if isinstance(st, ast.Return) and st.value is not None:
+            conds = []
+            for t, pol in gd:
+                tb = symstr._Bind(env).visit(copy.deepcopy(pyfront.subst_locals(g.node, t)))
+                conds += pyfront.guard_terms([(ast.fix_missing_locations(tb), pol)])
+            v = symstr._Bind(env).visit(copy.deepcopy(pyfront.subst_locals(g.node, st.value)))
+            ast.fix_missing_locations(v)
+            for c2, t2 in _through_helper(px, g, v, depth - 1):
+                out.append((c2, tuple(conds) + tuple(t2)))
+    return out or [(call, ())]
+
+
 def rule_literal(ctx, px):
     R = "R-C05-LITERAL"
     ctx.rule(
@@ -524,16 +581,21 @@ def rule_literal(ctx, px):
                     "" if good else why + ": the literal's type is narrower than the constant, or signedness is lost", r.lineno)
         elif kind == "FloatType":
             # the value handed to the cast: "<numerator>.0" for integral rationals, "(<numerator>.0 / <denominator>.0)" otherwise
-            call = symstr._Bind(env_r).visit(__import__("copy").deepcopy(r.value)) if env_r else r.value
-            kws = {k.arg: k.value for k in call.keywords} if isinstance(call, ast.Call) else {}
+            call0 = symstr._Bind(env_r).visit(__import__("copy").deepcopy(r.value)) if env_r else r.value
             good, why = False, f"{shown}"
-            if isinstance(call, ast.Call) and isinstance(call.func, ast.Attribute) and call.func.attr == "format" and "value" in kws and "type" in kws:
+            expansions = _through_helper(px, f, call0)
+            for call, extra_terms in expansions:
+              kws = {k.arg: k.value for k in call.keywords} if isinstance(call, ast.Call) else {}
+              if not (isinstance(call, ast.Call) and isinstance(call.func, ast.Attribute) and call.func.attr == "format" and "value" in kws and "type" in kws):
+                good, why = False, f"{shown}"
+                break
+              if True:
                 ty_ok = ast.unparse(kws["type"]).replace(" ", "") == f"filter_type_from_primitive(language,{ty})"
                 exprs = symstr.sym(px, f, kws["value"], _bound=env_r)
                 good = ty_ok and bool(exprs)
                 for c_, p_ in exprs:
                     sh = symstr.render(p_)
-                    facts = terms + list(c_)
+                    facts = terms + list(extra_terms) + list(c_)
                     den1 = (f"{val}.denominator==1", f"1=={val}.denominator")
                     den_not1 = (f"{val}.denominator!=1", f"1!={val}.denominator")
                     whole = any((e.replace(" ", "") in den1 and pol) or (e.replace(" ", "") in den_not1 and not pol) for e, pol in facts)
@@ -546,6 +608,8 @@ def rule_literal(ctx, px):
                     break
                 if not ty_ok:
                     why = f"cast to `{ast.unparse(kws['type'])}`"
+                if not good:
+                    break
             ctx.ob(R, cm.rel, f"{f.short} [float] :: exact numerator (/ denominator) of the rational as double literals, cast to the storage type `{r.lineno}`".replace(f" `{r.lineno}`", ""),
                    good, "" if good else why, r.lineno)
     ctx.ob(R, cm.rel, f"{f.short} [int] :: -2**63 has its own spelling (its magnitude fits no signed literal: the compiler would make it unsigned and positive)", n_min >= 1,
